@@ -71,7 +71,8 @@ def run(ctx: Context) -> None:
                  ("C05.R2", "no fault point leaves a connection in a transient state (typestate coverage)"),
                  ("C05.R3", "establishment faults mark the connection failed / close it"),
                  ("C05.R4", "recovery awaits are shielded from cancellation"),
-                 ("C05.R5", "response-close runs once per stream (idempotence flag), releasing the slot")):
+                 ("C05.R5", "response-close runs once per stream (idempotence flag), releasing the slot"),
+                 ("C05.R6", "HTTP/2 open-stream table: entries created only at allocation, removed only by response-close (ACTIVE implies an owned stream)")):
         rep.rule(r, t)
     for tree, N in trees(ctx):
         _r1(ctx, tree, N)
@@ -80,6 +81,9 @@ def run(ctx: Context) -> None:
         if tree == "async":
             _r4(ctx, tree, N)
         _r5(ctx, tree, N)
+        from .c01 import stream_table_census
+
+        stream_table_census(ctx, "C05.R6", tree, N, N.cls("http2", "AsyncHTTP2Connection"))
     rep.assume("anyio/trio shields hold under the runtime's cancellation (library semantics; native asyncio task.cancel() is not decided)")
     rep.assume("stream aclose()/close() does not raise")
 
